@@ -22,3 +22,8 @@ def obligations(tier):
                   "a table with a column of any of the 28 catalogued types parsed after one of 6 earlier statements (CHECK in a table / in an ALTER, DEFAULT, <...> type, LIKE, sequence - both symbolic) equals the table alone"))
     obs += lex_obs("C09", "c_case", ["type_pos"], tier, "lexcase")
     return obs
+
+
+def solver_queries(tier, scratch):
+    from vf import lr_lemmas
+    return lr_lemmas.run_lemmas("C09", tier, scratch)
